@@ -186,6 +186,28 @@ def explore_c17(rng, tier, res, deep=False):
         expect.append(("__outcomes__", q, doc, None))
         sets.append((q, doc, {r for _ch, r in leaves}, False, len(expect) - 1))
         res.count("scripts", len(leaves))
+    # descendant segments applied BELOW the root to data nested exactly to the environment's limit (and one less): the
+    # bound counts from the node the segment is applied to, so every script completes with a permitted nodelist
+    for lim in (2, 3, 4):
+        ldesc = dict(ND_ENV, maxDepth=lim)
+        lenv = real.make_env(ldesc)
+        leenv = real.enc_env(ldesc)
+        for rel in (lim - 1, lim):
+            inner = {"x": 1}
+            for _ in range(rel - 1):
+                inner = {"x": 0, "k": inner} if rel % 2 else [inner, {"x": 2}][:2]
+            for q, doc in (("$.a.b..x", {"a": {"b": inner}, "x": 9}), ("$.a[0]..*", {"a": [inner, 5]}), ("$[0][0][0]..[?@]", [[[inner]]]), ("$.s.*..x", {"s": {"p": inner, "q": {"x": 3}}})):
+                c = lenv.compile(q)
+                a = real.ast_query(c)
+                leaves, complete = choice_tree(lenv, c, doc, 400)
+                ed = wire.enc_json(doc)
+                for ch, r in leaves[:: max(1, len(leaves) // 30)]:
+                    lines.append(f"nd.find\t{leenv}\t{a}\t{ed}\t{ch.wire()}")
+                    expect.append((r, q, doc, ch.wire()))
+                lines.append(f"rfc.outcomes\t{leenv}\t{a}\t{ed}")
+                expect.append(("__outcomes__", q, doc, None))
+                sets.append((q, doc, {r for _ch, r in leaves}, False, len(expect) - 1))
+                res.count("descent-below-root-at-limit", len(leaves))
     # the flag is the environment's, read when a query is APPLIED: a query compiled while it was off and applied after it
     # was switched on (instance attribute or class attribute) is nondeterministic in full — every permitted ordering of
     # these small inputs is produced by some script, none that is not permitted
@@ -449,31 +471,40 @@ def explore_c18_nd(rng, tier, res, deep=False):
         desc = dict(ND_ENV, maxDepth=lim)
         env = real.make_env(desc)
         eenv = real.enc_env(desc)
-        c = env.compile("$..*")
-        a = real.ast_query(c)
         lines, expect = [], []
-        for d in range(max(0, lim - 1), lim + 3):
-            for where in ("first", "middle", "last"):
-                for _ in range(2 if tier != "thorough" else 6):
-                    doc = shaped_doc(rng, d, where)
-                    leaves, complete = choice_tree(env, c, doc, 300 if tier != "thorough" else 3000)
-                    want_ok = d <= lim
-                    res.nontrivial.add(("nd", lim, d, where, json.dumps(doc, sort_keys=True, default=str)))
-                    for ch, r in leaves:
-                        res.evaluations += 1
-                        ok = r.startswith("ok\t")
-                        if ok != want_ok or (not ok and r != "err JSONPathRecursionError"):
-                            res.violations.append({"property": "C18", "query": "$..*", "document": doc, "env": desc,
-                                                   "observed": r[:200], "script": ch.wire(),
-                                                   "expected": "full result" if want_ok else "JSONPathRecursionError",
-                                                   "what": f"nondeterministic mode, limit {lim}, container nesting {d}"})
-                            break
-                        lines.append(f"nd.find\t{eenv}\t{a}\t{wire.enc_json(doc)}\t{ch.wire()}")
-                        expect.append((r, doc, ch.wire()))
+        # the descent starts at the root, or BELOW it (the bound counts container nesting from the node the segment is
+        # applied to, whatever that node's own distance from the root is)
+        big = real.make_env(dict(real.DEFAULT_ENVDESC, maxDepth=10**6))
+        for prefix, tail in (("$", "..*"), ("$.a", "..*"), ("$[0]", "..*"), ("$[1]", "..a"), ("$.a.a", "..*"), ("$[*]", "..*"), ("$.*[0]", "..[0]")):
+            qtext = prefix + tail
+            c = env.compile(qtext)
+            a = real.ast_query(c)
+            for d in range(max(0, lim - 1), lim + 3):
+                for where in ("first", "middle", "last"):
+                    for _ in range((2 if prefix == "$" else 1) if tier != "thorough" else 6):
+                        doc = shaped_doc(rng, d, where)
+                        leaves, complete = choice_tree(env, c, doc, (300 if prefix == "$" else 60) if tier != "thorough" else 3000)
+                        starts = [n.value for n in big.find(prefix, doc)]
+                        rel = max([doc_depth(v) for v in starts], default=0)
+                        want_ok = rel <= lim
+                        res.nontrivial.add(("nd", lim, d, where, qtext, json.dumps(doc, sort_keys=True, default=str)))
+                        if prefix != "$":
+                            res.count("nd-descent-below-root" + ("-at-limit" if rel == lim else ""))
+                        for ch, r in leaves:
+                            res.evaluations += 1
+                            ok = r.startswith("ok\t")
+                            if ok != want_ok or (not ok and r != "err JSONPathRecursionError"):
+                                res.violations.append({"property": "C18", "query": qtext, "document": doc, "env": desc,
+                                                       "observed": r[:200], "script": ch.wire(),
+                                                       "expected": "full result" if want_ok else "JSONPathRecursionError",
+                                                       "what": f"nondeterministic mode, limit {lim}, container nesting {rel} below the node the descendant segment is applied to (document nesting {d})"})
+                                break
+                            lines.append(f"nd.find\t{eenv}\t{a}\t{wire.enc_json(doc)}\t{ch.wire()}")
+                            expect.append((r, doc, ch.wire(), qtext))
         out = model.run_batch_parallel(lines)
-        for (r, doc, script), o in zip(expect, out):
+        for (r, doc, script, qtext), o in zip(expect, out):
             if o != r:
-                res.mismatches.append({"op": "nd.find", "query": "$..*", "document": doc, "script": script, "model": o[:200], "real": r[:200]})
+                res.mismatches.append({"op": "nd.find", "query": qtext, "document": doc, "script": script, "model": o[:200], "real": r[:200]})
         res.count(f"nd-limit-{lim}", len(lines))
     # (2) cyclic data, deterministic mode: JSONPathRecursionError promptly, for limits 1..100
     for lim in (1, 3, 100):
